@@ -273,4 +273,35 @@ static void set_stack(const char* s)
   yr_set_configuration_uint32(YR_CONFIG_STACK_SIZE, v);
 }
 
+// a small process to scan with yr_scanner_scan_proc: one per harness process, dies with it
+#include <sys/prctl.h>
+#include <signal.h>
+#include <sys/wait.h>
+static pid_t vf_child = 0;
+static void kill_child(void) { if (vf_child > 0) { kill(vf_child, SIGKILL); waitpid(vf_child, NULL, 0); vf_child = 0; } }
+static pid_t get_child(void)
+{
+  if (vf_child > 0) return vf_child;
+  fflush(stdout);
+  vf_child = fork();
+  if (vf_child == 0)
+  {
+    prctl(PR_SET_PDEATHSIG, SIGKILL);
+    int nul = open("/dev/null", O_RDWR); dup2(nul, 0); dup2(nul, 1); dup2(nul, 2);
+    execlp("sleep", "sleep", "100000", (char*) NULL);
+    _exit(127);
+  }
+  atexit(kill_child);
+  // wait until the child has become `sleep` (before the exec it is a copy of this sanitized process, terabytes of shadow mappings)
+  for (int i = 0; i < 2000; i++)
+  {
+    char p[64], cmd[32] = {0};
+    snprintf(p, sizeof p, "/proc/%d/cmdline", (int) vf_child);
+    FILE* f = fopen(p, "r");
+    if (f) { size_t n = fread(cmd, 1, sizeof cmd - 1, f); fclose(f); if (n >= 5 && !strncmp(cmd, "sleep", 5)) break; }
+    usleep(5000);
+  }
+  return vf_child;
+}
+
 #endif
